@@ -493,3 +493,115 @@ SPECS.append(FucSpec(
     clause='Select._generate_events: every emitted _read/_write is for a descriptor select reported and that is (still) registered '
            'for that role, addressed to its target; the control pipe never produces an event',
 ))
+
+
+# ----------------------------------------------------------------------------- Select._preenDescriptors: closed descriptors go
+# "Discarded or closed descriptors produce no further events": Select has no kernel registration to forget a closed descriptor;
+# select.select() refuses the whole call (ValueError for an object whose fileno() is -1, TypeError for something that is no
+# descriptor, OSError EBADF for a stale number) and _generate_events hands over to _preenDescriptors, which must discard
+# exactly the descriptors select rejects - whatever the rejection looks like - and must not let the rejection escape (an
+# escaping exception leaves the dead descriptor listed, and then NO descriptor is ever reported again).
+def BADFD(t):
+    return core.fn('select_rejects', core.RefSort(), z3.BoolSort())(t)
+
+
+def preen_setup(I):
+    self = obj(I, 'self', 'Select')
+    x = core.fresh('x', core.RefSort())
+    for f in ('_read', '_write'):
+        a = I.field(self, f).arr
+        I.assume(z3.ForAll([x], z3.And(z3.Select(a, x) >= 0, z3.Select(a, x) <= 1)),
+                 'rep invariant: a descriptor is listed at most once per role')
+    I.st.ghost['PHASE'] = 0
+    I.st.ghost['PRE'] = I.st.snapshot()
+    return {'self': self}
+
+
+def s_select_probe(I, recv, args, kw):
+    """TRUSTED select.select([d], [d], [d], 0): raises ValueError / TypeError / OSError(EBADF) iff d is a descriptor select rejects
+    (uninterpreted predicate select_rejects), returns otherwise"""
+    I.st.trusted_used.add('select.select([d],[d],[d],0) raises ValueError, TypeError or OSError(EBADF) exactly for a descriptor it '
+                          'rejects (closed object: fileno() == -1, not a descriptor, stale number)')
+    d = args[0].items[0]
+    log = I.st.ghost.setdefault('PROBED', [])
+    log.append(d)
+    if I.branch(BADFD(d.t), 'rejected'):
+        cover(I, 'rejected')
+        c = I.st.choice(3, 'rejection')
+        if c == 0:
+            lib.raise_(I, 'ValueError', VStr('file descriptor cannot be a negative integer (-1)'))
+        if c == 1:
+            lib.raise_(I, 'TypeError', VStr('argument must be an int, or have a fileno() method'))
+        lib.raise_(I, 'OSError', VInt(9))
+    return VTuple([VCList([]), VCList([]), VCList([])])
+
+
+def s_preen_discard(I, recv, args, kw):
+    """contract of BasePoller.discard (verified above)"""
+    (fd,) = args
+    self = I.local('self')
+    for f in ('_read', '_write'):
+        b = I.field(self, f)
+        I.st.write_field(self.t, f, VBag(Ref, z3.Store(b.arr, fd.t, 0)))
+    d = I.field(self, '_targets')
+    I.st.write_field(self.t, '_targets', VDict(d.kk, d.vk, z3.Store(d.dom, fd.t, False), d.vals))
+    return NONE
+
+
+def _preen_facts(I, pre, x, visited=None):
+    """per descriptor x: untouched unless rejected; a rejected one is either as before or fully discarded"""
+    self = I.local('self')
+    r, w = I.field(self, '_read').arr, I.field(self, '_write').arr
+    t = I.field(self, '_targets')
+    r0, w0 = z3.Select(pre['_read'][0], self.t), z3.Select(pre['_write'][0], self.t)
+    t0 = Dict(Ref, Any).wrap([z3.Select(a, self.t) for a in pre['_targets']])
+    same = z3.And(z3.Select(r, x) == z3.Select(r0, x), z3.Select(w, x) == z3.Select(w0, x), z3.Select(t.dom, x) == z3.Select(t0.dom, x),
+                  z3.Implies(z3.Select(t.dom, x), z3.Select(t.vals[0], x) == z3.Select(t0.vals[0], x)))
+    gone = z3.And(z3.Select(r, x) == 0, z3.Select(w, x) == 0, z3.Not(z3.Select(t.dom, x)))
+    return same, gone, r0, w0
+
+
+def preen_inv(I):
+    pre = I.st.ghost['PRE']
+    x = core.fresh('x', core.RefSort())
+    same, gone, r0, w0 = _preen_facts(I, pre, x)
+    vis = I.frame.env.get('__visited1')
+    fs = [z3.Implies(z3.Not(BADFD(x)), same), z3.Implies(BADFD(x), z3.Or(same, gone))]
+    if vis is not None and vis.arr is not None:
+        fs.append(z3.Implies(z3.And(z3.Select(vis.arr, x), BADFD(x)), gone))
+    if I.st.ghost.get('PHASE', 0) >= 2:
+        fs.append(z3.Implies(z3.And(z3.Select(r0, x) > 0, BADFD(x)), gone))
+    return z3.ForAll([x], z3.And(*fs))
+
+
+def preen_entry(I):
+    I.st.ghost['PHASE'] = I.st.ghost.get('PHASE', 0) + 1
+
+
+def preen_post(I, outcome, ctx):
+    kind, v = outcome
+    if kind == 'raise':
+        I.oblige('the_rejection_never_escapes', z3.BoolVal(False),
+                 detail='%s from the probe of one descriptor left _preenDescriptors: the rejected descriptor stays listed and every '
+                        'later select() call fails the same way' % v.cls)
+        return
+    cover(I, 'return')
+    pre = ctx['pre']
+    x = core.fresh('x', core.RefSort())
+    same, gone, r0, w0 = _preen_facts(I, pre, x)
+    I.oblige('every_rejected_descriptor_is_discarded',
+             z3.ForAll([x], z3.Implies(z3.And(BADFD(x), z3.Or(z3.Select(r0, x) > 0, z3.Select(w0, x) > 0)), gone)),
+             detail='closed descriptors produce no further events: after the sweep no descriptor select rejects is listed for any role')
+    I.oblige('accepted_descriptors_keep_their_registration', z3.ForAll([x], z3.Implies(z3.Not(BADFD(x)), same)))
+
+
+SPECS.append(FucSpec(
+    'C10', FILE, 'Select._preenDescriptors', preen_setup, preen_post, fields=P_FIELDS,
+    calls={'select.select': s_select_probe, 'self.discard': s_preen_discard},
+    loops={1: LoopSpec(inv=[('rejected_visited_descriptors_are_gone_others_untouched', preen_inv)], havoc_fields=['_read', '_write', '_targets'],
+                       entry_hook=preen_entry)},
+    exc_parents={'ValueError': 'Exception', 'TypeError': 'Exception', 'OSError': 'Exception'},
+    cover=['return', 'rejected'],
+    clause='Select._preenDescriptors: every listed descriptor select rejects (ValueError, TypeError or OSError) is discarded, the '
+           'others keep their registration, and no rejection escapes (closed descriptors produce no further events and do not '
+           'blind the poller)'))
